@@ -33,7 +33,7 @@ def kclass(kind):
     return "join"
 
 
-def judge(steps, obs):
+def judge(steps, obs, client=False):
     """-> (findings [(signature, message, step_index)], info dict)"""
     findings = []
     info = {"partial_mutation_on_raise": 0, "loopless_upstream_after_join": 0, "child_mode_none_of_blocking_parent": 0}
@@ -81,7 +81,8 @@ def judge(steps, obs):
         if ens and xa is None and xl is None and not pipe_loops and True not in pipe_modes:
             if ob["raised"]:
                 f.append(("C19/fallback/raises/%s" % kc, "%s() on a loop-less pipeline raised %s" % (kind, ob["exc"])))
-            elif post[-1][0] != "BG" or post[-1][1] is not False:
+            elif post[-1][0] != ("DC" if client else "BG") or post[-1][1] is not False:
+                # (with a blocking dask default client the shared background loop IS the client's loop)
                 f.append(("C19/fallback/not-background/%s" % kc,
                           "%s() with nothing inherited ended with loop=%s asynchronous=%s" % (kind, post[-1][0], post[-1][1])))
         if not ob["raised"]:
